@@ -93,6 +93,14 @@ def openFindingRows (exp : List Expect) (rows : List Row) : List (String × Stri
         match e.why with | .knownFinding id => some (fn, id) | _ => none
     | _ => none
 
+/-- an expectation no row needs any more is stale (the code it described is gone or is guarded now) -/
+def Expect.used (e : Expect) (rows : List Row) : Bool :=
+  rows.any fun
+    | .site file fn kind .none count _ => e.covers file fn kind count
+    | _ => false
+
+def allUsed (exp : List Expect) (rows : List Row) : Bool := exp.all (·.used rows)
+
 /-- general lemma lifting the decided table fact to every row -/
 theorem discharged_of_all {exp : List Expect} {rows : List Row} (h : allDischarged exp rows = true) :
     ∀ r ∈ rows, r.discharged exp = true := by
@@ -131,18 +139,34 @@ def expectations : List Expect := [
   ⟨"openapi3/schema.go", "Schema.visitXOFOperations", .index, 1,
      .invariant "ok = 1 ⇒ exactly one index recorded"⟩,
   ⟨"openapi3/schema.go", "SchemaError.Error", .explicitPanic, 2,
-     .unreachable "marshalling of the library's own Schema / decoded JSON value for the message"⟩,
+     -- encoder.Encode(err.Schema) cannot fail for a schema that was loaded from JSON/YAML; encoder.Encode(err.Value)
+     -- does fail for a value holding NaN/±Inf (strconv.ParseFloat, YAML) or a non-string-keyed YAML mapping
+     .knownFinding "F-C10-6"⟩,
   ⟨"openapi3/schema.go", "Types.Is", .index, 1,
      .invariant "second conjunct after len(*types) == 1 (guard is on the dereferenced slice)"⟩,
   ⟨"openapi3/server.go", "Server.MatchRawURL", .index, 1,
      .invariant "Server.matchRawURL_no_panic (input was just defaulted to \"/\" when empty)"⟩,
+  ⟨"pathpattern/node.go", "Node.MustAdd", .explicitPanic, 1,
+     .unreachable "Must-helper of the exported pathpattern API: panics by contract on a malformed pattern; the library itself only calls Add (legacy.NewRouter returns the error)"⟩,
+  ⟨"pathpattern/node.go", "PathFromHost", .index, 3,
+     .invariant "0 ≤ start < end ≤ len(host) throughout the loop: end starts at len(host) and is only ever set to start (exported helper, not called by the library)"⟩,
+  ⟨"pathpattern/node.go", "SuffixList.Less", .index, 2,
+     .libraryContract "sort.Interface: sort.Sort calls Less with 0 ≤ i, j < Len()"⟩,
+  ⟨"pathpattern/node.go", "SuffixList.Swap", .index, 4,
+     .libraryContract "sort.Interface: sort.Sort calls Swap with 0 ≤ i, j < Len()"⟩,
   -- decoders
   ⟨"openapi3filter/req_resp_decoder.go", "MultipartBodyDecoder", .derefRefValue, 20, .refsResolved⟩,
   ⟨"openapi3filter/req_resp_decoder.go", "RegisterBodyDecoder", .explicitPanic, 2,
      .unreachable "registration time (init and user set-up), not traffic"⟩,
+  ⟨"openapi3filter/req_resp_decoder.go", "UnregisterBodyDecoder", .explicitPanic, 1,
+     .unreachable "registration time (user set-up), not traffic"⟩,
+  ⟨"openapi3filter/req_resp_encoder.go", "RegisterBodyEncoder", .explicitPanic, 2,
+     .unreachable "registration time (user set-up), not traffic"⟩,
+  ⟨"openapi3filter/req_resp_encoder.go", "UnregisterBodyEncoder", .explicitPanic, 1,
+     .unreachable "registration time (user set-up), not traffic"⟩,
   ⟨"openapi3filter/req_resp_decoder.go", "UrlencodedBodyDecoder", .derefOptStruct, 1, .refsResolved⟩,
   ⟨"openapi3filter/req_resp_decoder.go", "UrlencodedBodyDecoder", .derefRefValue, 4, .refsResolved⟩,
-  ⟨"openapi3filter/req_resp_decoder.go", "buildResObj", .derefRefValue, 11, .refsResolved⟩,
+  ⟨"openapi3filter/req_resp_decoder.go", "buildResObj", .derefRefValue, 12, .refsResolved⟩,
   ⟨"openapi3filter/req_resp_decoder.go", "buildResObj", .index, 1,
      .invariant "resultArr is made with len(arr) and i ranges over arr"⟩,
   ⟨"openapi3filter/req_resp_decoder.go", "decodeSchemaConstructs", .derefRefValue, 4, .refsResolved⟩,
